@@ -1,9 +1,28 @@
 package rules
 
-func init() {
-	Properties["C02"] = &Property{
-		ID:          "C02",
-		Explanation: "tbd",
-		Rules:       []Rule{RuleB1, RuleDDiv, RuleCSparse, RuleFAcctTypes, RuleCStdout, RuleDDaysBeforeBuild, RuleDFlagInt, RuleDNilFlag, RuleDRecursion, RuleCInfer, RuleCInferFresh, RuleKZeroFlow},
+const commonNote = "Level 'other': structural necessary conditions decided statically on the type-checked program (go/packages + go/ssa + VTA call graph), every instance enumerated, fail-closed on unknown idioms. Trusted: the Go type checker and go/ssa; VTA over-approximates dynamic calls; shopspring/decimal arithmetic is exact; strings.Split returns cap==len. "
+
+func claim(p *Property) {
+	if p.Technique == "" {
+		p.Technique = "static analysis: repository-specific rules over typed AST, SSA, CFG dominance and VTA call graph"
 	}
+	p.LevelNote = commonNote + "NOT decided: " + join(p.NotDecided)
+	p.LevelText = "Decides, for every instance in the program, these structural clauses: " + join(p.Decides) + " It does not decide the behavioural remainder (see level_note)."
+	p.Explanation = p.LevelText + " " + p.LevelNote
+	Properties[p.ID] = p
+}
+
+func join(ss []string) string {
+	out := ""
+	for i, s := range ss {
+		if i > 0 {
+			out += " "
+		}
+		out += s
+	}
+	return out
+}
+
+func init() {
+	NotApplicable["C11"] = "Every clause quantifies over calendar arithmetic on runtime dates (AddDate, Weekday, month lengths, sort.Search over generated periods). No clause has a shape-level reading that a rule could name without also firing on behaviour-preserving rewrites of the date arithmetic; enumerating the (finite) domain would be running the code, which is a different technique family."
 }
